@@ -93,11 +93,12 @@ func runProtocol(rc *core.RunCtx) {
 		check("bootstrap")
 	}
 	sinks := map[string]*actor.PID{}
+	ambiguous := map[string]bool{} // addresses listed under more than one id somewhere
 	nops := g.Range(1, 8)
 	for op := 0; op < nops; op++ {
 		live := w.live()
 		at := live[g.IntN(len(live))]
-		switch g.Pick(6, 3, 2, 1, 2, 2, 2) {
+		switch g.Pick(6, 3, 2, 1, 2, 2, 2, 1) {
 		case 0: // at hears the announcement of another node and handshakes it
 			o := live[g.IntN(len(live))]
 			if o == at {
@@ -114,11 +115,12 @@ func runProtocol(rc *core.RunCtx) {
 		case 1: // unreachable report for a member
 			var cands []*node
 			for _, o := range w.nodes {
-				if o != at && model[at.id][o.id] {
+				// (an address listed under two ids would make "the member with that address" ambiguous)
+				if o != at && model[at.id][o.id] && !ambiguous[o.addr] {
 					cands = append(cands, o)
 				}
 			}
-			if model[at.id][at.id] && g.Bool(0.15) {
+			if model[at.id][at.id] && !ambiguous[at.addr] && g.Bool(0.15) {
 				// the node's own address is reported (it is a member of its own list):
 				// it leaves its own list, possibly leaving it empty
 				cands = []*node{at}
@@ -139,7 +141,7 @@ func runProtocol(rc *core.RunCtx) {
 		case 2: // unreachable report for a non-member
 			addr := "10.77.0.1:9"
 			for _, o := range w.nodes {
-				if o != at && !model[at.id][o.id] && g.Bool(0.5) {
+				if o != at && !model[at.id][o.id] && !ambiguous[o.addr] && g.Bool(0.5) {
 					addr = o.addr
 				}
 			}
@@ -170,6 +172,22 @@ func runProtocol(rc *core.RunCtx) {
 			settle(time.Second)
 			// joined, then left: both reached the provider in that order
 			check("handshake-then-unreachable")
+		case 7: // a peer with a new id advertises an address that is already listed (also: this node's own)
+			fid := fmt.Sprintf("S%d", op)
+			o := live[g.IntN(len(live))]
+			if !model[at.id][o.id] {
+				o = at
+			}
+			if sinks[at.id] == nil {
+				sinks[at.id] = at.c.Engine().SpawnFunc(func(*actor.Context) {}, "sink")
+			}
+			rc.Scen("op%d: %s gets the handshake of %s, which advertises %s - the address %s is listed under: a handshake only adds", op, at.id, fid, o.addr, o.id)
+			simrt.Fault("handshake-with-listed-address")
+			ambiguous[o.addr] = true
+			at.c.Engine().SendWithSender(actor.NewPID(at.addr, "provider/"+at.id), &hcluster.Handshake{Member: &hcluster.Member{ID: fid, Host: o.addr, Kinds: []string{"ka"}}}, sinks[at.id])
+			settle(time.Second)
+			model[at.id][fid] = true
+			check("handshake-with-listed-address")
 		case 6: // a stale peer pings, at this node's address, the provider of another node id
 			var other string
 			for _, o := range w.nodes {
